@@ -141,6 +141,10 @@ def describe_commands(sg, arch):
             d["upscale"] = str(ps.primary_op.ifm_resampling_mode)
             d["read_offsets"] = [None if o is None else [int(x) for x in o.as_list()] for o in ps.primary_op.read_offsets]
             d["write_offset"] = None if ps.primary_op.write_offset is None else [int(x) for x in ps.primary_op.write_offset.as_list()]
+            d["write_shape"] = None if ps.primary_op.write_shape is None else [int(x) for x in ps.primary_op.write_shape.as_list()]
+            d["read_shapes"] = [None if o is None else [int(x) for x in o.as_list()] for o in ps.primary_op.read_shapes]
+            d["block_type"] = ps.npu_block_type.name
+            d["ps"] = id(ps)
             if cmd.weight_tensor is not None:
                 wt = cmd.weight_tensor
                 src = wt.src_tensor if wt.src_tensor is not None else wt
